@@ -324,6 +324,16 @@ def twoPhaseM (P : Program) (nm : List String → String) (ρ : Store) : J × Li
   ((evalRT P.table P.nfuel ρ [] ⟨P.top.callee, 0, 0⟩ (staticProgram P nm).1.exp),
    (staticProgram P nm).2.flatMap (instsOf P.table P.nfuel ρ))
 
+/-- the store a run leaves behind, from the recorded outs `O` and the nodes of the call graph:
+the outs of `node`, read in fork assignment `f`, are those of the fork of the node that `f`
+selects — only the node's own fork dimensions matter (`Node.matchFork`) -/
+def storeOfNodes (nm : List String → String) (nodes : List SNode) (O : Oracle) : Store :=
+  { outs := fun node f =>
+      match nodes.find? (fun n => nm n.path == node) with
+      | some n => (O ⟨n.path, n.forks.map fun d => (d.1, (f.lookup d.1).getD .none)⟩).getD .null
+      | none => .null
+    idx := fun _ _ => [] }
+
 /-! ## the fragment -/
 
 /-- no map call and no `disabled` modifier anywhere -/
